@@ -85,6 +85,50 @@ CHECKS = {
              "ALL values of the future cells.",
         technique="symbolic execution of the real Backtest.run with symbolic future data (taint = SMT atoms), z3 per path; two-futures concrete replay",
         ref="DESIGN.md §3 C04"),
+    'C10': dict(
+        text="Well-formed catalogue (13 stacks: every stock scheduling/selection/statistic/weighting/rebalancing algo, nested, explicit-children and fixed-income "
+             "trees, late listings) executed symbolically with the last date's data symbolic and the report accessors called on the finished run: an exception "
+             "or a non-finite recorded number on a feasible path is a violation; every path's model is replayed on real float64 pandas on the interpreted source "
+             "and on a freshly cythonized build of the working tree; seven ill-formed classes must raise. Exception-freedom under stated preconditions is also an "
+             "obligation inside C05.",
+        technique="symbolic execution of the real Backtest.run + report accessors, z3 per path; witness replay on source and freshly compiled build",
+        ref="DESIGN.md §3 C10"),
+    'C14': dict(
+        text="Real selection algos on object frames whose every cell is a symbolic real in [-10,1000] (zero/negative prices) or NaN by mask, prior selection a "
+             "solver-chosen subset: membership of every ticker is proved equivalent to the documented predicate under each path condition; ranked selection "
+             "proved to return min(n, eligible) tickers each beating every unselected eligible one; total-return statistic proved cell by cell.",
+        technique="symbolic execution of bt/algos.py selection algos on symbolic pandas frames, z3 per path, concrete replay",
+        ref="DESIGN.md §3 C14"),
+    'C15': dict(
+        text="Real weighting algos against live symbolic child weights and symbolic targets: equal/specified/scaled/dated weights, per-period delta limits, "
+             "capped weights (ffn limit_weights executed symbolically), random weights for any RNG outcome (random.uniform a solver variable), TargetVol and "
+             "PTE_Rebalance with a symbolic PSD covariance and a sqrt atom (non-linear, degree <= 6). WeighERC/WeighMeanVar numerical optimality not claimed.",
+        technique="symbolic execution of bt/algos.py weighting algos, z3 (LRA/NRA) per path, concrete replay",
+        ref="DESIGN.md §3 C15"),
+    'C17': dict(
+        text="FixedIncomeStrategy histories with symbolic quantities (grid coupons/costs) and the transposed configuration (symbolic coupons, costs, prices): "
+             "notional per node type, notional weights, coupon and asymmetric holding-cost accrual, payment into parent cash on the next date exactly once, "
+             "additive index with its fallbacks, SetNotional/Rebalance targets, RenormalizedFixedIncomeResult._price formula.",
+        technique="symbolic execution of bt/core.py fixed-income paths and bt/algos.py, z3 per path, concrete replay",
+        ref="DESIGN.md §3 C17"),
+    'C18': dict(
+        text="After symbolic backtests the real report accessors (weights, security_weights, positions, herfindahl_index, turnover, get_transactions, result "
+             "prices) are proved equal cell by cell to the harness's own recomputation from an independent walk of the tree; ReplayTransactions round-trip; "
+             "the fixed-income report configuration is checked by its concrete replay only (pandas object-dtype division differs from float64).",
+        technique="symbolic execution of bt/backtest.py report accessors on symbolic histories, z3 per path, concrete replay",
+        ref="DESIGN.md §3 C18"),
+    'C19': dict(
+        text="Construction recipes (children kinds, list/dict/parent= attachment, duplicate names, node re-use, flag pushes) enumerated exhaustively through "
+             "solver choice points with structural invariants checked on each; lazy-vs-eager children and universe scoping proved as relations between two "
+             "real Backtest.run executions for symbolic capital and symbolic last-date prices.",
+        technique="bounded-exhaustive enumeration via solver choice points (structural part) + relational symbolic execution (lazy vs eager)",
+        ref="DESIGN.md §3 C19"),
+    'C20': dict(
+        text="UpdateRisk sums (unit risk x position x multiplier, missing entries zero, history depth) on a nested tree with symbolic positions; HedgeRisks "
+             "with exact and pseudo inverse, instrument multipliers, optional separate hedge strategy re-hedged on a second date: hedged risk proved zero / "
+             "least-squares; Close/Roll/SelectActive through the real Backtest.run with solver-chosen close, roll and start dates.",
+        technique="symbolic execution of bt/algos.py risk/close/roll algos, z3 per path, concrete replay",
+        ref="DESIGN.md §3 C20"),
 }
 
 NOT_YET = "check not built yet in this session (planned in DESIGN.md §3); will move to checks when its harness lands"
